@@ -100,6 +100,9 @@ func TestVerif_C17(t *testing.T) {
 	for ep := 0; ep < evid.Pick(4, 40) && rec.Violations() < 30; ep++ {
 		vfC17ApiCallAcrossShutdown(rec, ep)
 	}
+	for ep := 0; ep < evid.Pick(1, 6) && rec.Violations() < 30; ep++ {
+		vfC17IdleAfterReconfiguration(rec, ep)
+	}
 	// every server of this run has been stopped: no accept / connection / cleanup goroutine may remain
 	left := vfAbsnfsGoroutines("acceptLoop", "handleConnectionLoop", "idleConnectionCleanupLoop")
 	if len(left) > 0 {
@@ -900,4 +903,91 @@ func vfC17ApiCallAcrossShutdown(rec *evid.Rec, ep int) {
 	if how == "Unexport" {
 		n.Close()
 	}
+}
+
+// vfC17IdleAfterReconfiguration: idle reaping through the server's own timer loop after IdleTimeout
+// was raised and lowered again at runtime. Timers are involved, so the verdict is RELATIVE: a control
+// server with the same final IdleTimeout that was never reconfigured runs in the same process under
+// the same load. Both get an idle connection at the same moment. If the control's connection is
+// reaped after tc, the reconfigured server's connection must be reaped too by 3 x tc + 75 s (the
+// reaper's ticks are at most a minute apart, so a lowered IdleTimeout is in force after a minute at
+// the latest); if the control itself is not reaped within 60 s the episode is inconclusive.
+func vfC17IdleAfterReconfiguration(rec *evid.Rec, ep int) {
+	final := []time.Duration{200 * time.Millisecond, 400 * time.Millisecond}[ep%2]
+	detour := []time.Duration{time.Hour, 10 * time.Minute, 3 * time.Minute}[ep%3]
+	mk := func() (*vfSrv, int) {
+		fs := refs.New()
+		srv, err := vfNewSrv(fs, ExportOptions{AttrCacheTimeout: 1, IdleTimeout: final})
+		if err != nil {
+			return nil, 0
+		}
+		if err := srv.srv.Listen(); err != nil {
+			srv.Close()
+			return nil, 0
+		}
+		return srv, srv.srv.GetPort()
+	}
+	control, cport := mk()
+	recon, rport := mk()
+	if control == nil || recon == nil {
+		rec.Inconclusive(1)
+		return
+	}
+	defer func() { control.srv.Stop(); control.Close(); recon.srv.Stop(); recon.Close() }()
+	// let the reaper loops start and tick with the initial setting first (a loop that starts after
+	// the raise would legitimately begin with its longest interval, one minute)
+	time.Sleep(4 * final)
+	// the detour: raise, let the loop tick a few times, lower again
+	recon.nfs.UpdateTuningOptions(func(t *TuningOptions) { t.IdleTimeout = detour })
+	time.Sleep(3 * final)
+	recon.nfs.UpdateTuningOptions(func(t *TuningOptions) { t.IdleTimeout = final })
+	time.Sleep(2 * final)
+	cc, err1 := vfDialRM(cport)
+	rc, err2 := vfDialRM(rport)
+	if err1 != nil || err2 != nil {
+		rec.Inconclusive(1)
+		return
+	}
+	defer cc.c.Close()
+	defer rc.c.Close()
+	// one request each, then silence
+	cc.call(vfProgNFS, 0, nil)
+	rc.call(vfProgNFS, 0, nil)
+	t0 := time.Now()
+	closedAt := func(c net.Conn, limit time.Duration) (time.Duration, bool) {
+		buf := make([]byte, 1)
+		for time.Since(t0) < limit {
+			c.SetReadDeadline(time.Now().Add(50 * time.Millisecond))
+			_, err := c.Read(buf)
+			if err == nil {
+				continue
+			}
+			if ne, ok := err.(net.Error); ok && ne.Timeout() {
+				continue
+			}
+			return time.Since(t0), true
+		}
+		return 0, false
+	}
+	tc, ok := closedAt(cc.c, 60*time.Second)
+	if !ok {
+		rec.Inconclusive(1) // this machine does not even reap the control in a minute
+		return
+	}
+	rec.Eval(1)
+	// the reaper re-reads the setting at its ticks, which are never more than a minute apart: a
+	// lowered IdleTimeout is in force after a minute at the latest
+	bound := 3*tc + 75*time.Second
+	if _, ok := closedAt(rc.c, bound); !ok {
+		recon.srv.connMutex.Lock()
+		diag := fmt.Sprintf("tuning.IdleTimeout=%v activeConns=%d", recon.nfs.tuning.Load().IdleTimeout, len(recon.srv.activeConns))
+		for _, st := range recon.srv.activeConns {
+			diag += fmt.Sprintf(" idle-for=%v", time.Since(st.lastActivity))
+		}
+		recon.srv.connMutex.Unlock()
+		diag += fmt.Sprintf(" loop-goroutines=%v", vfAbsnfsGoroutines("idleConnectionCleanupLoop"))
+		rec.Set("idle_after_reconfiguration_diagnosis", diag)
+		rec.Violate("C17/idle-connection-not-reaped-after-idle-timeout-was-raised-and-lowered", diag+" "+fmt.Sprintf("IdleTimeout %v -> %v -> %v at runtime: an idle connection is still open after %v; a server with IdleTimeout %v that was never reconfigured reaped its idle connection after %v", final, detour, final, bound, final, tc), nil)
+	}
+	rec.Distinct(fmt.Sprintf("idle-after-reconfiguration|final=%v|detour=%v", final, detour))
 }
